@@ -28,7 +28,7 @@ Definition do_uop (v : variant) (now : Z) (o : uop) (w : net) : net * list kc :=
   (* ---- udp ---- *)
   | UUdpNew s node => (set_udp w s (udp_fresh node now), [])
   | UUdpOpen s v4 => udp_open cx s v4 w
-  | UUdpBind s e => let (err, w) := udp_bind s e w in (w, [ret_line 1 s [err]])
+  | UUdpBind s e => let (err, w) := udp_bind_user v s e w in (w, [ret_line 1 s [err]])
   | UUdpClose s => udp_close cx s w
   | UUdpCancel s => udp_abort_recv s w
   | UUdpDestroy s => let (w, c) := udp_close cx s w in (set_udp w s (udp_fresh (u_node (get_udp w s)) now), c)
@@ -54,7 +54,7 @@ Definition do_uop (v : variant) (now : Z) (o : uop) (w : net) : net * list kc :=
   | UTcpNew s node => (set_tcp w s (tcp_fresh node false), [])
   | UAccNew s node => (set_tcp w s (tcp_fresh node true), [])
   | UTcpOpen s v4 => tcp_open cx s v4 w
-  | UTcpBind s e => let (err, w) := tcp_bind s e w in (w, [ret_line 5 s [err]])
+  | UTcpBind s e => let (err, w) := tcp_bind_user v s e w in (w, [ret_line 5 s [err]])
   | UTcpClose s => if t_is_acc (get_tcp w s) then acc_close cx s w else tcp_close cx s w
   | UTcpCancel s => if t_is_acc (get_tcp w s) then acc_cancel s w else tcp_cancel s w
   | UTcpDestroy s =>
